@@ -665,6 +665,8 @@ func run(c *engine.Ctx) {
 	for _, f := range []string{"proto-off", "proto-on", "rule-on", "rule-off"} {
 		all = append(all, []Step{{"jwtmd", f}, {"anon", "-"}}, []Step{{"jwtmd", f}, {"basic", "proto-off"}},
 			[]Step{{"basic", "proto-off"}, {"jwtmd", f}})
+		// ... and with a key set URL templated over the token's issuer
+		all = append(all, []Step{{"jwtt", f}, {"anon", "-"}}, []Step{{"jwtt", f}, {"basic", "proto-off"}})
 	}
 
 	var mine []int
